@@ -195,7 +195,12 @@ def semi(prog: Program, rep: Report):
             continue
         pool = t[1][1]
         it = t[2][2][0]
-        same_pool = it[0] == "call" and len(it[2]) == 1 and it[2][0] == ("self", pool)
+        pools_ = {("self", "labeled_idxs"), ("self", "unlabeled_idxs")}
+        args_ = (list(it[2]) + [v for k, v in it[3] if not str(k).startswith("#")]) if it[0] == "call" else []
+        # the iterator is built over this pool (and over no other pool), whatever else it is given (a generator ...)
+        same_pool = ("self", pool) in args_ and not ((pools_ - {("self", pool)}) & set(args_))
+        if it[0] == "call" and not (pools_ & set(args_)):
+            same_pool = None  # built from something else (a local, a length): not decided
         conds = fa.conds_at(n)
         # i % (L+U) < L   <=>   ('lt', i % (L+U) - L)
         role = None
@@ -213,7 +218,7 @@ def semi(prog: Program, rep: Report):
                         role = "?"
         want_pool = {"labeled": "labeled_idxs", "unlabeled": "unlabeled_idxs"}.get(role)
         seen.add(role)
-        rep.decide(None if role is None else (same_pool and pool == want_pool), "G9.semi-pools", fi, construct,
+        rep.decide(None if (role is None or same_pool is None) else (same_pool and pool == want_pool), "G9.semi-pools", fi, construct,
                    f"{role} position -> self.{pool}[next(iterator over self.{pool})]",
                    (f"a {role} position yields from self.{pool}" if pool != want_pool else
                     f"self.{pool} is indexed with an iterator built over {show(it)}: indices of the other pool's size"),
@@ -222,7 +227,9 @@ def semi(prog: Program, rep: Report):
                "both a labeled and an unlabeled branch exist with the i % (L+U) < L split",
                "the stream is not split by i % (num_labeled + num_unlabeled) < num_labeled", clause="C13.2")
     loops = [nd for n, nd in fa.cfg.nodes.items() if nd.kind == "iter"]
-    ok = any(fa.sym.term(nd.ast, i) == ("call", ("global", "range"), (("call", ("global", "len"), (("param", fa.self_name),), ()),), ())
+    ln_self = ("call", ("global", "len"), (("param", fa.self_name),), ())
+    ok = any(fa.sym.term(nd.ast, i) in (("call", ("global", "range"), (ln_self,), ()),
+                                        ("call", ("global", "range"), (("const", 0), ln_self), ()))
              for i, nd in fa.cfg.nodes.items() if nd.kind == "iter")
     rep.decide(ok, "G9.semi-pools", fi, "length", "for i in range(len(self))", "the stream length is not len(self)",
                clause="C13.2", nontrivial=False)
